@@ -1,4 +1,5 @@
 import TruthModel.Driver.Lw
+import TruthModel.Driver.C02Body
 namespace TruthModel.Driver.C02
 open TruthModel
 
@@ -7,6 +8,8 @@ def handle (case : Sexp) : Sexp :=
   match case.head? with
   | some "low" => Driver.Lw.compileCase case false
   | some "lowj" => Driver.Lw.compileCaseJ case
+  | some "srcvm" => Driver.C02Body.srcvm case
+  | some "tgtvm" => Driver.C02Body.tgtvm case
   | _ => .atom "bad-case"
 
 end TruthModel.Driver.C02
